@@ -271,3 +271,49 @@ def run(ctx):
         ctx.check(p6, paths.guarded(ah, cd[2]["node"], lambda f, c, pol: paths.rel(f, c, pol, subst=False) == ("hyp", "<", "c")), key(ah, "separator"), ah.where(cd[2]["node"]), "separator written without the `c > hyp` test")
     al = [s for s in paths.stores(ah) if s["path"] == "hyp"]
     ctx.check(p6, len(al) == 1 and ah.canon(al[0]["rhs"], subst=False).startswith("__ckd_calloc__(1, len,"), key(ah, "alloc"), ah.where(ah.root), "buffer is not the counted length")
+
+    # ---- P7 lifetime of partial paths -------------------------------------------------------------------
+    p7 = ctx.rule("OWN.P7-path-lifetime", "a partial path that is (or flows into) some path's `parent` stays allocated until astar_finish: no listelem_free on the path allocator releases an expression that reaches a `->parent` store, in the storing function or through the parameter it came in by; hypotheses are back-traced through these pointers", floor=5)
+    fns = [f for f in lf.values()]
+    sources = {}          # fn name -> {canon: where}
+    work = []
+    for f in fns:
+        for s in paths.stores(f):
+            if s["path"].endswith("->parent") and s["rhs"] is not None:
+                r = f.canon(s["rhs"], subst=False)
+                if r in ("0", "((void *)0)", "NULL"):
+                    ctx.check(p7, True, key(f, "parent-null"), f.where(s["node"]), "")
+                    continue
+                sources.setdefault(f.name, {})[r] = f.where(s["node"])
+                work.append((f, r))
+                ctx.check(p7, True, key(f, "parent<-%s" % r), f.where(s["node"]), "")
+    seen = set()
+    while work:
+        f, r = work.pop()
+        if (f.name, r) in seen:
+            continue
+        seen.add((f.name, r))
+        pidx = [i for i, prm in enumerate(f.params) if prm[0] == r]
+        if not pidx:
+            continue
+        for g in fns:
+            for c in g.calls(f.name):
+                aa = g.args(c)
+                if pidx[0] < len(aa):
+                    a = g.canon(aa[pidx[0]], subst=False)
+                    sources.setdefault(g.name, {})[a] = g.where(c)
+                    work.append((g, a))
+    if not sources:
+        raise AnalysisIncomplete("no store into a path's parent pointer found")
+    nfree = 0
+    for f in fns:
+        for c in f.calls("__listelem_free__"):
+            aa = f.args(c)
+            if len(aa) < 2 or not f.canon(aa[0], subst=False).endswith("latpath_alloc"):
+                continue
+            nfree += 1
+            x = f.canon(aa[1], subst=False)
+            hit = sources.get(f.name, {}).get(x)
+            ctx.check(p7, hit is None, key(f, "free:%s" % x), f.where(c), "`%s` is released here but is also a path's parent (%s): a hypothesis completed later is back-traced through recycled memory" % (x, hit))
+    if nfree < 3:
+        raise AnalysisIncomplete("releases of partial paths not found (%d)" % nfree)
